@@ -80,3 +80,13 @@ def _zero_len_exec(case, v):
     from gen.programs import OPS
 
     return any(o in multi or (o in OPS and OPS[o].arity >= 2) for o in ops)
+
+
+@matcher("store_repeated_lazy_source")
+def _store_repeated(case, v):
+    """Several (source, target) pairs of one store() call whose sources are the same lazy
+    array, aliases of it, or one an ancestor of the other (runtime fact recorded by the check
+    from the real cubed arrays: identity / name in the other's plan)."""
+    if v.get("cls") not in ("target_missing", "target_content_wrong"):
+        return False
+    return bool(v.get("shared_ancestry")) and v.get("n_pairs", 1) > 1
